@@ -24,7 +24,7 @@ FORMULAS = {
 
 # suites whose runs start outside the declared ranges are only meaningful for C06
 SUITES = {
-    "C05": "scripted,real,edited",
+    "C05": "scripted,real,edited,oor",
     "C06": "scripted,real,edited,oor",
     "C07": "scripted,real,special",
     "C08": "scripted,real,edited,special",
@@ -210,6 +210,19 @@ def run_check(ctx):
         elif r["not_consumed"]:
             tool_errors.append("%s: trace not consumed although no property was violated"
                                % os.path.basename(f["file"]))
+    freq = None
+    if pid in ("C07", "C18"):
+        # statistical side-check, outside TLC: acceptance frequencies of controlled downhill moves
+        fres = os.path.join(out, "frequency.json")
+        vp.pvh(["frequency", "--out", fres, "--tier", tier, "--seed", str(seed)], timeout=3000)
+        fr = json.load(open(fres))
+        mine = [t for t in fr["tests"] if t["clause"] == pid]
+        freq = {"tests": len(mine), "max_abs_deviation_sigma": max([abs(t["deviation_sigma"]) for t in mine] or [0]),
+                "bound_sigma": 6, "sample": mine[:2]}
+        for f in fr["first_failures"]:
+            if ("loop" in f["state"]) == (pid == "C18"):
+                rp = vp.save_replay(pid, "frequency_seed%d" % seed, {"property": pid, "formula": "frequency", "failures": [f]})
+                violations.append(("frequency", f["what"], rp))
     cli = None
     if pid == "C20":
         # CLI clause: the real binary ends with status 0 and both files, or with a message and a
@@ -236,6 +249,7 @@ def run_check(ctx):
     wall = time.time() - t0
     coverage = {
         "cli_clause": cli,
+        "frequency_side_check": freq,
         "states": states, "transitions": transitions,
         "traces_validated_against_impl": nruns,
         "samples": samples,
